@@ -30,7 +30,7 @@ GT_STRATA = [(p, n) for p in range(1, 7) for n in range(1, 7)]
 def lanes(tier):
     if tier == "quick":
         return [("plain", "plain", len(GT_STRATA) + 8 + 64 + 40), ("san", "san", len(GT_STRATA) + 8 + 16 + 16)]
-    return [("plain", "plain", len(GT_STRATA) + 40 + 256 + 600), ("san", "san", len(GT_STRATA) + 20 + 64 + 150)]
+    return [("plain", "plain", len(GT_STRATA) + 40 + 256 + 600), ("san", "san", len(GT_STRATA) + 20 + 64 + 150), ("vg-san", "vg", list(range(0, len(GT_STRATA) + 20 + 64 + 150, 17)))]
 
 
 def _layout(tier, lane):
